@@ -1,4 +1,6 @@
 import ShuttleProofs.Lemmas.PctExamples
+import ShuttleProofs.Lemmas.PctSample
+import ShuttleProofs.Lemmas.PctPanic
 
 /-!
 # C11 — the PCT scheduler: priority invariant, highest-priority-runs, change points, step estimate, iteration count
@@ -174,5 +176,188 @@ example : exSecond1 = some exSecond1S ∧ Inv exSecond1S ∧
     nextTask exSecond1S [0, 1, 17] (some 0) false = .ok 1 exSecond2S ∧
     Demote exSecond1S [0, 1, 17] false ∧ prio exSecond2S 0 = some 18 ∧ exSecond2S.nextPriority = 19 := by
   decide +kernel
+
+/-! ## `pct_change_points` -/
+
+/-- After `new_execution` on iteration ≥ 2: exactly `min (max_depth - 1) (max_steps - 1)` change points, pairwise distinct,
+    all in `[1, max_steps)` (pct.rs:100-101 says `[1, max_steps]`; the sampled range is `[0, max_steps - 1)` shifted by one, and
+    `steps` indeed only takes the values `0 … max_steps - 1` when the guard is evaluated).
+    EXPLICIT HYPOTHESIS `hloops : SampleLoopsInRange` (the integer rejection loops return `low + hi` with `hi < range`;
+    see `ShuttleProofs/Lemmas/PctSample.lean` for why it is not proved). Given it, all four `index::sample` algorithms
+    (Floyd, in-place, rejection u32/usize) are proved to return `amount` distinct indices below `length`. -/
+theorem pct_change_points (hloops : SampleLoopsInRange) {s s' : PctState} {seed : Nat} (hI : Inv s)
+    (hit : s.iterations > 0) (h : newExecution s = .some seed s') :
+    0 < s.maxSteps ∧
+    s'.changePoints.length = min (s.maxDepth - 1) (s.maxSteps - 1) ∧ s'.changePoints.Nodup ∧
+    ∀ c ∈ s'.changePoints, 1 ≤ c ∧ c < s.maxSteps := by
+  obtain ⟨_, _, _, _, _, _, _, _, hp⟩ := newExecution_some hI h
+  obtain ⟨hms, prios, g, cps, _, _, _, _, _, hix, hcp⟩ := hp hit
+  obtain ⟨hl, hn, hb⟩ := indexSample_spec hloops hix
+  refine ⟨hms, by rw [hcp]; simpa using hl, ?_, ?_⟩
+  · rw [hcp]; unfold List.Nodup; rw [List.pairwise_map]
+    exact List.Pairwise.imp (fun hab => by omega) hn
+  · intro c hc
+    rw [hcp] at hc
+    obtain ⟨c', hc', rfl⟩ := List.mem_map.1 hc
+    have := hb c' hc'; omega
+
+example : exFirst = some exFirstS ∧ Inv exFirstS ∧ exFirstS.iterations > 0 ∧
+    newExecution exFirstS = .some 10580897095847554459 exSecondS ∧ exSecondS.changePoints = [2, 1] ∧
+    exFirstS.maxDepth = 3 ∧ exFirstS.maxSteps = 3 := by decide +kernel
+
+/-! ## `pct_at_most_d_minus_1_change_preemptions` -/
+
+/-- Within one execution (`new_execution`, then any sequence `cs` of `next_task` / `next_u64` calls that does not panic)
+    the multi-choice decisions see `steps = 0, 1, 2, …` (`multiSteps`, each value exactly once), so every change point is
+    matched by at most one decision, and the number of decisions at which the change-point guard `steps ∈ change_points`
+    fires is at most `change_points.len()`, hence at most `max_depth - 1`.  (Demotions caused by `is_yielding` are not
+    bounded.)  The bound `change_points.len() ≤ max_depth - 1` is re-established for the next execution.
+    The hypothesis `hcp` holds initially (`change_points = []`) and is an output of this theorem. -/
+theorem pct_at_most_d_minus_1_change_preemptions (hloops : SampleLoopsInRange) {s0 s1 s2 : PctState} {seed : Nat}
+    {cs : List Call} (hI : Inv s0) (hcp : s0.changePoints.length ≤ s0.maxDepth - 1)
+    (hex : newExecution s0 = .some seed s1) (hne : NoExec cs) (hrun : runCalls s1 cs = some s2) :
+    multiSteps s1 cs = List.range' 0 (multiCount cs) ∧
+    ((multiSteps s1 cs).filter (· ∈ s1.changePoints)).length ≤ s1.changePoints.length ∧
+    s1.changePoints.length ≤ s1.maxDepth - 1 ∧
+    s2.changePoints = s1.changePoints ∧ s2.maxDepth = s1.maxDepth := by
+  obtain ⟨_, _, a2, _, a4, _, _, hz, hp⟩ := newExecution_some hI hex
+  have hI1 := inv_newExecution hI hex
+  obtain ⟨_, _, b2, _, b4, _, _, b7⟩ := runCalls_noExec cs s1 s2 hI1 (by omega) hne hrun
+  rw [a4] at b7
+  have hlen : s1.changePoints.length ≤ s1.maxDepth - 1 := by
+    by_cases hit : s0.iterations > 0
+    · have := (pct_change_points hloops hI hit hex).2.1
+      rw [this, a2]; omega
+    · obtain ⟨_, _, e3, _⟩ := hz (by omega)
+      rw [e3, a2]; exact hcp
+  refine ⟨b7, ?_, hlen, b4, b2⟩
+  apply List.Nodup.length_le_of_subset
+  · rw [b7]; exact List.Nodup.sublist List.filter_sublist (List.nodup_range' (step := 1))
+  · intro x hx
+    simpa using (List.mem_filter.1 hx).2
+
+example : exFirst = some exFirstS ∧ Inv exFirstS ∧ exFirstS.changePoints.length ≤ exFirstS.maxDepth - 1 ∧
+    newExecution exFirstS = .some 10580897095847554459 exSecondS ∧ NoExec exBody2 ∧
+    runCalls exSecondS exBody2 = some exSecond2S ∧ multiSteps exSecondS exBody2 = [0, 1] ∧
+    (multiSteps exSecondS exBody2).filter (· ∈ exSecondS.changePoints) = [1] := by decide +kernel
+
+/-! ## `pct_k_estimate` -/
+
+/-- `max_steps` never decreases, and after any number of whole executions (from a fresh scheduler) it equals the maximum,
+    over the executions so far, of the number of multi-choice decisions (`multiCount`) of the execution. -/
+theorem pct_k_estimate :
+    (∀ s s' c, Inv s → s.steps ≤ s.maxSteps → applyCall s c = some s' →
+      s.maxSteps ≤ s'.maxSteps ∧ s'.steps ≤ s'.maxSteps) ∧
+    (∀ seed maxDepth maxIterations es s', (∀ e ∈ es, NoExec e) →
+      runExecs (PctState.newFromSeed seed maxDepth maxIterations) es = some s' →
+      s'.maxSteps = (es.map multiCount).foldl max 0) := by
+  refine ⟨?_, ?_⟩
+  · intro s s' c hI hsm h
+    by_cases hc : c.isExec = true
+    · cases c with
+      | exec =>
+        obtain ⟨seed, hex⟩ := applyCall_exec h
+        obtain ⟨_, _, _, _, a4, a5, _⟩ := newExecution_some hI hex
+        omega
+      | task r cur y => simp [Call.isExec] at hc
+      | u64 => simp [Call.isExec] at hc
+    · obtain ⟨_, _, _, _, _, a5, a6⟩ := applyCall_noExec hI (by simpa using hc) h
+      rw [a5, a6]; split <;> omega
+  · intro seed d N es s' hne h
+    exact (runExecs_spec es _ s' (inv_newFromSeed seed d N) (Nat.zero_le _) hne h).2.2.2.2.2
+
+example : (∀ e ∈ [exBody1, exBody2], NoExec e) ∧
+    (runExecs (PctState.newFromSeed 42 3 10) [exBody1, exBody2]).map (fun s => (s.maxSteps, s.iterations)) = some (3, 2) ∧
+    [exBody1, exBody2].map multiCount = [3, 2] := by decide +kernel
+
+/-! ## `pct_iterations_exact` -/
+
+/-- `new_execution` returns `None` exactly when `iterations ≥ max_iterations`; after `k` whole executions from a fresh
+    scheduler `iterations = k ≤ max_iterations`; so (absent panics) `new_execution` returns `Some` exactly
+    `max_iterations` times and then `None`. -/
+theorem pct_iterations_exact :
+    (∀ s, newExecution s = .none ↔ s.iterations ≥ s.maxIterations) ∧
+    (∀ seed maxDepth maxIterations es s', (∀ e ∈ es, NoExec e) →
+      runExecs (PctState.newFromSeed seed maxDepth maxIterations) es = some s' →
+      s'.iterations = es.length ∧ s'.maxIterations = maxIterations ∧ es.length ≤ maxIterations ∧
+      (newExecution s' = .none ↔ es.length = maxIterations)) := by
+  have key : ∀ s, newExecution s = .none ↔ s.iterations ≥ s.maxIterations := by
+    intro s
+    constructor
+    · intro h
+      by_cases hit : s.iterations ≥ s.maxIterations
+      · exact hit
+      · exfalso
+        unfold newExecution at h
+        simp only [hit, if_false] at h
+        split at h
+        · split at h
+          · cases h
+          · split at h
+            · cases h
+            · split at h
+              · cases h
+              · split at h <;> cases h
+        · cases h
+    · intro h; unfold newExecution; simp [h]
+  refine ⟨key, ?_⟩
+  intro seed d N es s' hne h
+  obtain ⟨_, a1, _, a3, a4, _⟩ := runExecs_spec es _ s' (inv_newFromSeed seed d N) (Nat.zero_le _) hne h
+  have e1 : s'.iterations = es.length := by rw [a3]; simp [PctState.newFromSeed]
+  have e2 : s'.maxIterations = N := by rw [a1]; rfl
+  refine ⟨e1, e2, by omega, ?_⟩
+  rw [key]; omega
+
+example : runExecs (PctState.newFromSeed 42 3 2) [exBody1, exBody2] ≠ none ∧
+    (∀ s', runExecs (PctState.newFromSeed 42 3 2) [exBody1, exBody2] = some s' → newExecution s' = .none) ∧
+    runExecs (PctState.newFromSeed 42 3 2) [exBody1, exBody2, []] = none := by
+  refine ⟨by decide +kernel, ?_, by decide +kernel⟩
+  intro s' h
+  exact ((pct_iterations_exact.2 42 3 2 _ s' (by decide) h).2.2.2).2 rfl
+
+/-! ## `pct_no_concurrency_panics` -/
+
+/-- The deliberate diagnostic of pct.rs:79: starting the second (or a later) execution when no execution so far contained a
+    multi-choice decision panics with "test closure did not exercise any concurrency". -/
+theorem pct_no_concurrency_panics {s : PctState} (hlt : s.iterations < s.maxIterations) (hit : s.iterations > 0)
+    (hms : s.maxSteps = 0) :
+    newExecution s = .panic "test closure did not exercise any concurrency" := by
+  unfold newExecution
+  have h1 : ¬ s.iterations ≥ s.maxIterations := by omega
+  simp [h1, hit, hms]
+
+example : exNoConc.iterations < exNoConc.maxIterations ∧ exNoConc.iterations > 0 ∧ exNoConc.maxSteps = 0 ∧
+    Inv exNoConc ∧ newExecution exNoConc = .panic "test closure did not exercise any concurrency" := by
+  decide +kernel
+
+/-! ## `pct_next_task_no_invariant_panic` (extra) -/
+
+/-- Under the invariant — with at least one known task (there are always `DEFAULT_INLINE_TASKS = 16`), a non-empty offer
+    and, when the demotion guard holds, a `current` that is known or not larger than some offered id — none of the
+    `unwrap()` / `expect("priority queue invariant")` / `expect("self.steps > 0 …")` / `debug_assert!` sites of
+    `next_task` is reachable: the model returns `.ok`, or reports that the RNG model ran out of rejection-loop fuel.
+    So on these inputs debug and release builds agree.  Uses the explicit hypothesis `SampleLoopsInRange`
+    (for `gen_range(0..len) < len`). -/
+theorem pct_next_task_no_invariant_panic (hloops : SampleLoopsInRange) {s : PctState} {runnable : List Nat}
+    {current : Option Nat} {isYielding : Bool} (hI : Inv s) (hlen : 0 < s.priorities.length) (hr : runnable ≠ [])
+    (hcur : Demote s runnable isYielding → ∃ cur, current = some cur ∧
+      (cur < s.priorities.length ∨ ∃ t ∈ runnable, cur ≤ t)) :
+    (∃ c s', nextTask s runnable current isYielding = .ok c s') ∨
+    nextTask s runnable current isYielding = .panic "model: rng (gen_range)" :=
+  nextTask_total hloops hI hlen hr hcur
+
+example : Inv exSecond1S ∧ 0 < exSecond1S.priorities.length ∧ [0, 1, 17] ≠ [] ∧ Demote exSecond1S [0, 1, 17] false ∧
+    (∃ cur, some 0 = some cur ∧ (cur < exSecond1S.priorities.length ∨ ∃ t ∈ [0, 1, 17], cur ≤ t)) :=
+  ⟨by decide +kernel, by decide +kernel, by decide, by decide +kernel, 0, rfl, Or.inr ⟨0, by decide, Nat.le_refl _⟩⟩
+
+/-! ## Probability
+
+NOT formalised: the PCT guarantee (a bug of depth `d` is found with probability at least `1/(n·k^(d-1))`) would need a
+probability space over the generator outputs and the paper's reduction argument.  What the theorems above provide are
+its deterministic ingredients: the initial priorities are a permutation of `0..n-1` produced by `SliceRandom::shuffle`
+(`pct_inv` / `shuffle_perm`), the `d-1` change points are distinct values in `[1, k)` (`pct_change_points`), each of them
+is hit by at most one scheduling decision (`pct_at_most_d_minus_1_change_preemptions`), the task run is always the
+highest-priority offered one (`pct_runs_min_priority`) and a change point moves `current` below every other task
+(`pct_demotes_only_current`). -/
 
 end ShuttleProofs.Pct
